@@ -466,6 +466,78 @@ def run_case(arg):
         return res
 
 
+# ---- a name defined twice: every combination of kinds, orders and settings
+
+DUP_KINDS = ["recipe", "alias", "module", "variable"]
+
+
+def dup_matrix(tier, seed):
+    atoms = [(k, n) for k in DUP_KINDS for n in ("a", "b")]
+    seqs = [list(x) for n in (2, 3) for x in itertools.product(atoms, repeat=n)]
+    cases = [{"items": s_, "allow_recipes": ar, "allow_vars": av} for s_ in seqs for ar in (False, True) for av in (False, True)]
+    total = len(cases)
+    if tier == "quick":
+        rng = C.case_rng(seed, 0, "c03-dup")
+        rng.shuffle(cases)
+        # all two-item cases, a sample of the three-item ones
+        cases = [c for c in cases if len(c["items"]) == 2] + [c for c in cases if len(c["items"]) == 3][:700]
+    return cases, total
+
+
+def dup_text(c):
+    t = 'set shell := ["%s", "-c"]\n' % C.VSH
+    if c["allow_recipes"]:
+        t += "set allow-duplicate-recipes\n"
+    if c["allow_vars"]:
+        t += "set allow-duplicate-variables\n"
+    t += "\nt:\n  [T]\n\n"
+    for i, (k, n) in enumerate(c["items"]):
+        if k == "recipe":
+            t += "%s:\n  [R%d]\n\n" % (n, i)
+        elif k == "alias":
+            t += "alias %s := t\n\n" % n
+        elif k == "module":
+            t += "mod %s 'sub.just'\n\n" % n
+        else:
+            t += "%s := 'v%d'\n\n" % (n, i)
+    return t
+
+
+def dup_spec(c):
+    """The statement, directly: a name may be defined twice only by two recipes under allow-duplicate-recipes or by two
+    assignments under allow-duplicate-variables (variables are a namespace of their own)."""
+    clash = set()
+    its = c["items"]
+    for i in range(len(its)):
+        for j in range(i + 1, len(its)):
+            (k1, n1), (k2, n2) = its[i], its[j]
+            if n1 != n2:
+                continue
+            if (k1 == "variable") != (k2 == "variable"):
+                continue
+            if k1 == "variable":
+                if not c["allow_vars"]:
+                    clash.add(n1)
+            elif not (k1 == "recipe" and k2 == "recipe" and c["allow_recipes"]):
+                clash.add(n1)
+    return clash
+
+
+def run_dup(c):
+    with C.scratch("c03d") as d:
+        open(os.path.join(d, "justfile"), "w").write(dup_text(c))
+        open(os.path.join(d, "sub.just"), "w").write("s:\n  [S]\n")
+        logp = os.path.join(d, "vsh.log")
+        env = dict(C.BASE_ENV)
+        env.update({"HOME": d, "TMPDIR": d, "VSH_LOG": logp})
+        out = {"runs": []}
+        for argv in (["--summary"], ["t"]):
+            q = subprocess.run([C.JUST] + argv, cwd=d, env=env, stdin=subprocess.DEVNULL, stdout=subprocess.PIPE, stderr=subprocess.PIPE)
+            out["runs"].append({"argv": argv, "rc": q.returncode, "stderr": q.stderr.decode("utf-8", "replace")[-400:]})
+        out["spawned"] = len(C.read_vsh_log(logp))
+        return out
+
+
 def run(report):
     tier = report.tier
     just, bt = C.build_just()
@@ -511,7 +583,41 @@ def run(report):
         cases.append((p, exp, "random-valid/%d" % i))
     results = C.pmap(run_case, cases)
     model = drv.pbatch([{"op": "analyze", "module": model_of(p)} for p, _, _ in cases], chunk=500)
-    stats = {"cases": len(cases), "by_family": {}, "rejected": 0, "accepted": 0, "recipe_runs": 0, "table_regenerated": changed,
+    # duplicate definitions: kinds x orders x settings, against the statement and against Just.Define
+    dcases, dtotal = dup_matrix(tier, report.seed)
+    dres = C.pmap(run_dup, dcases)
+    dmod = drv.pbatch([{"op": "define", "items": [{"name": n, "kind": k} for k, n in c["items"] if k != "variable"],
+                        "vars": [n for k, n in c["items"] if k == "variable"], "allowRecipes": c["allow_recipes"],
+                        "allowVars": c["allow_vars"]} for c in dcases], chunk=2000)
+    dstats = {"cases": len(dcases), "space": dtotal, "rejected": 0, "accepted": 0}
+    for c, r, m in zip(dcases, dres, dmod):
+        if "fatal" in m:
+            raise C.BuildError("model driver: " + m["fatal"])
+        clash = dup_spec(c)
+        replay = {"justfile": dup_text(c), "files": {"sub.just": "s:\n  [S]\n"}, "case": c, "observed": r, "expected_clashing_names": sorted(clash)}
+        rejected = all(x["rc"] != 0 for x in r["runs"])
+        accepted = all(x["rc"] == 0 for x in r["runs"])
+        kinds = "+".join(sorted({k for k, n in c["items"] if n in clash})) if clash else "none"
+        if clash:
+            dstats["rejected"] += 1
+            if not rejected:
+                report.failure("c03-duplicate-accepted:%s" % kinds, "names %s are defined twice without the matching allow-duplicate setting, but the justfile was accepted" % sorted(clash), replay)
+                continue
+            if r["spawned"]:
+                report.failure("c03-duplicate-ran", "a justfile with a duplicate definition ran a command", replay)
+                continue
+            if not any(("`%s`" % n) in r["runs"][0]["stderr"] for n in clash) or "error" not in r["runs"][0]["stderr"]:
+                report.failure("c03-duplicate-message", "the error does not name the name defined twice", replay)
+                continue
+        else:
+            dstats["accepted"] += 1
+            if not accepted:
+                report.failure("c03-duplicate-rejected:%s" % "+".join(sorted({k for k, _ in c["items"]})), "a justfile without forbidden duplicates was rejected: " + r["runs"][0]["stderr"][-150:], replay)
+                continue
+        if m["accepts"] != (not clash):
+            report.failure("c03-model-define", "Just.Define.accepts disagrees with the implementation and the statement",
+                           dict(replay, correspondence="C03 duplicate definitions vs Just.Define.accepts", model=m), no_input=True)
+    stats = {"cases": len(cases), "duplicates": dstats, "by_family": {}, "rejected": 0, "accepted": 0, "recipe_runs": 0, "table_regenerated": changed,
              "extract_notes": notes, "functions_in_table": len(functions)}
     distinct = set()
     samples = []
@@ -584,7 +690,7 @@ def run(report):
     report.coverage.update({
         "evaluations": len(cases),
         "distinct_nontrivial": len(distinct),
-        "rule": "undefined name injected in %d contexts x %d constructor child positions (complete at depth 1 + one deep nesting); all digraphs on 3 nodes as variable and as recipe dependency graphs (thorough: + 6000 sampled 4-node digraphs each); dependency arity (8 target signatures x 0..3 arguments x prior/subsequent); every function of the regenerated table + abbreviations + unknown names x 0..4 arguments; duplicate definitions x allow-duplicate settings; ignore-comments corner cases; random valid programs; every recipe of every program is also RUN (rejected => nothing ran; accepted => no internal error); distinct = distinct justfile texts" % (len(CONTEXTS), len(W)),
+        "rule": "undefined name injected in %d contexts x %d constructor child positions (complete at depth 1 + one deep nesting); all digraphs on 3 nodes as variable and as recipe dependency graphs (thorough: + 6000 sampled 4-node digraphs each); dependency arity (8 target signatures x 0..3 arguments x prior/subsequent); every function of the regenerated table + abbreviations + unknown names x 0..4 arguments; duplicate definitions: all sequences of 2 and 3 definitions over {recipe, alias, module, variable} x 2 names x both allow-duplicate settings (quick: all pairs, a sample of triples); ignore-comments corner cases; random valid programs; every recipe of every program is also RUN (rejected => nothing ran; accepted => no internal error); distinct = distinct justfile texts" % (len(CONTEXTS), len(W)),
         "samples": samples,
         "exhaustive": True,
         "traces_validated_against_impl": len(cases),
